@@ -3522,6 +3522,37 @@ const PATH_TEMPLATES: &[(&str, &str)] = &[
     ("GET", "/stats/{}"), ("GET", "/metrics/{}"), ("POST", "/auth/{}"),
     ("GET", "/api/v1/cas/{}/issues"), ("GET", "/api/v1/bulk/cas/{}"),
     ("DELETE", "/api/v1/pubd/publishers/{}x-not-there"),
+    // CA-scoped routes with the CA handle (and the second handle) open
+    ("GET", "/api/v1/cas/{}/children/{}"),
+    ("GET", "/api/v1/cas/{}/children/{}/export"),
+    ("GET", "/api/v1/cas/{}/children/{}/parent_response.json"),
+    ("GET", "/api/v1/cas/{}/children/{}/parent_response.xml"),
+    ("GET", "/api/v1/cas/{}/parents/{}"), ("GET", "/api/v1/cas/{}/parents"),
+    ("GET", "/api/v1/cas/{}/id/child_request.xml"),
+    ("GET", "/api/v1/cas/{}/id/child_request.json"),
+    ("GET", "/api/v1/cas/{}/id/publisher_request.json"),
+    ("GET", "/api/v1/cas/{}/id/publisher_request.xml"),
+    ("GET", "/api/v1/cas/{}/repo"), ("GET", "/api/v1/cas/{}/routes"),
+    ("GET", "/api/v1/cas/{}/routes/analysis/full"),
+    ("GET", "/api/v1/cas/{}/aspas"), ("GET", "/api/v1/cas/{}/bgpsec"),
+    ("GET", "/api/v1/cas/{}/history/commands"),
+    ("GET", "/api/v1/cas/{}/stats/children/connections"),
+    ("POST", "/api/v1/cas/{}/keys/roll_init"),
+    ("POST", "/api/v1/cas/{}/keys/roll_activate"),
+    ("POST", "/api/v1/cas/{}/sync/parents"),
+    ("POST", "/api/v1/cas/{}/sync/repo"),
+    ("GET", "/api/v1/ta/proxy/children/{}/parent_response.xml"),
+    ("GET", "/testbed/children/{}/parent_response.json"),
+    ("GET", "/testbed/publishers/{}/response.xml"),
+    ("GET", "/testbed/publishers/{}/response.json"),
+];
+
+/// Hostile (percent-encoded) path segments every open position of every
+/// route template is tried with once, before the random part.
+const HOSTILE_SEGMENTS: &[&str] = &[
+    "a%5Cb", "%5Cb", "a%2Fb", "a%252Fb", "%EF%BC%A1%EF%BC%B31", "a%00b",
+    "..", "%2E%2E", "a%20b", "a%7Bb%7D", "ta", "%C3%A9", "a%0Ab", "-", "~",
+    "%FF%FE", "a%3Fb%3Dc", "a%23b", "0x10", "+1",
 ];
 
 fn free_port() -> u16 {
@@ -3594,12 +3625,43 @@ fn http_phase(
             // accepted ones generate keys and block the slice
             && !matches!(e, E::CaInit | E::BulkImport)).collect();
     let mut n = 0u64;
+    // the systematic part: every open position of every template with every
+    // hostile segment (this shard's share), long segment included
+    let mut planned: VecDeque<(String, String, Vec<u8>)> = VecDeque::new();
+    let long = "x".repeat(300);
+    let mut idx = 0u64;
+    for (m, t) in PATH_TEMPLATES {
+        if avoid.contains("history") && t.contains("/history/") { continue }
+        let holes = t.matches("{}").count();
+        for pos in 0..holes {
+            for hs in HOSTILE_SEGMENTS.iter().copied().chain([long.as_str()]) {
+                idx += 1;
+                if idx % args.nshards.max(1) != args.shard { continue }
+                let mut path = String::new();
+                for (i, part) in t.split("{}").enumerate() {
+                    if i > 0 {
+                        if i - 1 == pos { path.push_str(hs) }
+                        else if i == 1 { path.push_str("alpha") }
+                        else { path.push_str("beta") }
+                    }
+                    path.push_str(part);
+                }
+                planned.push_back((format!("path:{m} {t}"), m.to_string(),
+                                   path.into_bytes()));
+            }
+        }
+    }
+    r.count("http_planned_hostile_paths", planned.len() as u64);
     while r.elapsed_s() < end {
         n += 1;
         let rng = &mut g.rng;
         let kind = rng.below(10);
         let (class, method, path, body, raw): (String, String, Vec<u8>,
-            Option<Vec<u8>>, Option<Vec<u8>>) = if kind < 4 {
+            Option<Vec<u8>>, Option<Vec<u8>>) =
+        if let Some((class, m, path)) = planned.pop_front() {
+            let body = if m == "POST" { Some(vec![b'{', b'}']) } else { None };
+            (class, m, path, body, None)
+        } else if kind < 4 {
             let entry = *rng.pick(&routed);
             let inp = g.input(cx, entry, true);
             let enc: Vec<String> = inp.params.iter().map(|p| {
